@@ -2360,20 +2360,18 @@ class Statements(Sequence, Immutable):
                     break
             else:
                 raise KeyError(f"Could not find symbol {symbol}")
-        g = self._create_dependency_graph()
-        symbs = self[i].rhs_symbols
-        if i == 0 or i not in g:
-            # Special case for the first statement or a statement without
-            # any dependency among the other statements (not a node of the graph)
-            return symbs
-        for j, _ in nx.bfs_predecessors(g, i, sort_neighbors=lambda x: reversed(sorted(x))):
+        symbs = set(self[i].rhs_symbols)
+        # NOTE: Scan backwards so that each symbol is resolved by its closest preceding definition
+        for j in range(i - 1, -1, -1):
             statement = self[j]
             if isinstance(statement, Assignment):
-                symbs -= {statement.symbol}
+                if statement.symbol in symbs:
+                    symbs = (symbs - {statement.symbol}) | statement.rhs_symbols
             else:
                 assert isinstance(statement, CompartmentalSystem)
-                symbs -= set(statement.amounts)
-            symbs |= statement.rhs_symbols
+                amounts = set(statement.amounts)
+                if not symbs.isdisjoint(amounts):
+                    symbs = (symbs - amounts) | statement.rhs_symbols
         return symbs
 
     def remove_symbol_definitions(
